@@ -235,6 +235,24 @@ def L2(tier, scheds=('fwd', 'bwd')):
                                                    cals={'A': cal}, dflt=dflt, clock=clock, layer='L2')
 
 
+def L2b(tier):
+    """Backward schedules of inputs that carry user-fixed dates on leaves (e.g. a forward result fed to the backward
+    scheduler). Only C07 and C14 quantify over these (C09/C04 exclude user-fixed dates for backward schedules)."""
+    E = MON + 21 * DAY
+    menu = [{'estimate': 4}, {'estimate': 4, 'end': E + 2 * DAY}, {'estimate': 4, 'end': E - 3 * DAY},
+            {'estimate': 4, 'start': E - 10 * DAY, 'end': E - 8 * DAY}, {'estimate': 12, 'start': E - 2 * DAY},
+            {'estimate': 4, 'start': E - 30 * DAY}, {'milestone': True}]
+    structs = [((None, 0, 0), ()), ((None, 0, None), ((0, 2),)), ((None, 0, None), ((1, 2),)), ((None, 0, 1), ()),
+               ((None, 0, 0, None), ((0, 3),)), ((None, None), ((0, 1),))]
+    for par, links in structs:
+        lv = [i for i in range(len(par)) if is_leaf(par, i)]
+        for combo in itertools.product(range(len(menu)), repeat=len(lv)):
+            attrs = {i: dict(menu[c], resource='A') for i, c in zip(lv, combo)}
+            for bal in (True, False):
+                for A in (E, E + H9):
+                    yield Scenario('bwd', bal, A, mk_tasks(par, attrs), list(links), layer='L2b')
+
+
 L3_PATTERNS = {
     2: [(), ((0, 1),), ((1, 0),)],
     3: [(), ((0, 1),), ((0, 1), (1, 2)), ((0, 2), (1, 2)), ((0, 1), (0, 2)), ((2, 0),)],
@@ -321,16 +339,15 @@ def L5(tier):
                     attrs = {j: {'estimate': est, 'resource': 'A'} for j in lv}
                     yield Scenario(sched, bal, A, mk_tasks(par, attrs), list(links), cals={'A': cal},
                                    layer='L5'), 'never-available'
-    # hierarchy-closing cycles
-    nmax = 3 if tier == 'quick' else 4
-    for par, links in structures(nmax, 2, 3):
+    # hierarchy-closing cycles (all structures with <= 4 tasks in both tiers: cycles through a grandparent need 4)
+    for par, links in structures(4, 2, 3):
         if not leaf_cycle(par, links):
             continue
         lv = [i for i in range(len(par)) if is_leaf(par, i)]
         attrs = {i: {'estimate': 4, 'resource': 'A'} for i in lv}
         for sched in ('fwd', 'bwd'):
             A = S if sched == 'fwd' else S + 21 * DAY
-            for bal in (True, False):
+            for bal in ((True, False) if (tier == 'thorough' or len(par) < 4) else (True,)):
                 yield Scenario(sched, bal, A, mk_tasks(par, attrs), list(links), layer='L5'), 'leaf-cycle'
 
 
